@@ -188,4 +188,33 @@ PROPS = {
                 "independently derived address; any other passphrase => error and no bytes, also right after a successful "
                 "unlock. Non-trivial = at least one signed transaction verified.",
     },
+    "C04": {
+        "level": "exploration",
+        "quick_runs": 1500, "thorough_runs": 40000, "chunk": 50,
+        "thorough_params": {"ops": 50},
+        "nontrivial_stat": "check.key_matches_address",
+        "rule": "one run = 2-3 wallet instances with separate simulated disks on one node; a generated history of create "
+                "(all five entropy sizes) / new address of both classes (from public material while locked, from private "
+                "material after an unlock) / key check / export + import keystore on another instance / import mnemonic "
+                "with the matching index hint / reveal mnemonic / wrong-passphrase export, removal and signing / clean "
+                "restart / crash-restart / public-passphrase change followed by a restart / mining. Oracle: the wallet id "
+                "and the address at every index equal one independent BIP-39/BIP-32 derivation (btcd-compatible mode where "
+                "the wallet's derivation deviates, see DESIGN) on every instance; for every issued address SignHash with the "
+                "right passphrase yields a signature that verifies under the public key the address commits to. "
+                "Non-trivial = at least one key/address check ran.",
+    },
+    "C05": {
+        "level": "exploration",
+        "quick_runs": 1500, "thorough_runs": 40000, "chunk": 50,
+        "thorough_params": {"ops": 50},
+        "nontrivial_stat": "check.disk_scan",
+        "rule": "same histories as C04 with the complete write tape of every simulated disk kept (every byte ever written to "
+                "any journal, table or manifest file, including superseded ones). After every operation the tapes, every "
+                "exported keystore and every error string are searched for each secret the harness can derive: the "
+                "mnemonic and word runs of it, entropy, BIP-39 seed, the private scalars of the master/purpose/coin/"
+                "account/branch keys and of every issued address (raw and hex), both passphrases. Wrong passphrases (empty, "
+                "near misses, case changes, binary, over-long, the public passphrase) on reveal, export, removal and "
+                "signing, also directly after a successful unlock, must be refused with an error, return no data and "
+                "write nothing. Non-trivial = at least one disk scan ran.",
+    },
 }
